@@ -23,7 +23,12 @@ PROP = {'level': 'proof',
          '(concat_sum_lengths, concat_strs::<N>, join_sum_lengths, join_strs::<N>, slice concat_sum_lengths, '
          'concat_slices::<u8,N>) are called directly with N in {LEN-1, LEN, LEN+1, LEN+2, 0} (model-only '
          'comparison), and the error kind of from_bytes_with_nul is compared with the model (in scope) and '
-         'with std (out of scope).',
+         'with std (out of scope). Long inputs: 61 (261 thorough) byte lengths in 40..=300 covering every '
+         'residue mod 16 around 64/128/256 for pieces, str separators, u8/u32/&str element lists and char '
+         'lists, ASCII and densely multi-byte texts. Name hygiene: 40 identifiers (every name the four '
+         'expansions declare or bind, plus controls incl. the former plain names LEN, CONC, STR) as the name of a caller const/static/fn/type alias '
+         'mentioned in each macro fragment (29 templates): value rows plus accept/reject verdict rows '
+         'compared with std (accept) and with the Lean model of the expansion scopes (Hyg.transparent).',
  'explanation': 'Theorems (Props/C20.lean) state model = std spec for every argument list; the transcript '
                 'ties the model to the real macros (const-evaluated by rustc) and the real konst::ffi::cstr '
                 'functions, and the spec to the real std.',
@@ -33,4 +38,7 @@ PROP = {'level': 'proof',
                  'macro arguments are valid &str / char values (a Rust invariant)',
                  'the error KIND of from_bytes_with_nul is outside the property (compared as drift): konst '
                  'reports NotNulTerminated where std reports InteriorNul when an interior nul is followed by '
-                 'a non-nul last byte']}
+                 'a non-nul last byte',
+                 'name hygiene: identifiers the library mangles on purpose (..81608BFNA5, .._KO9Y329U2U, '
+                 '__func_zxe7hgbnjs) and caller consts/statics with the lower-case name of a local variable of '
+                 'the from_iter! expansion are outside the property (drift; still compared with the model)']}
